@@ -41,7 +41,7 @@ SIG_DROP = ("drop-stale-redo: undo(drop=True) forgot a change but left in the re
             "that entry later acts on a tree in which its dependency was never made")
 
 LIMITS = [0, 1, 2, 3, 100]
-FAILING = ("bookkeeping", "limit", "empty-not-refused", "closure", "undo-raised", "redo-raised", "not-inverse",
+FAILING = ("reopen", "interrupted-partial", "bookkeeping", "limit", "empty-not-refused", "closure", "undo-raised", "redo-raised", "not-inverse",
            "replay", "refused-do-effect", "current-change", "step-not-reversible")
 
 
@@ -76,6 +76,8 @@ def catalogue():
         (100, [D("LEAF"), D("EA"), D("LEAF"), ["undo", 0, False], ["redo", 0]], "catalogue"),
         (100, [D("EA"), D("EB"), ["undo", None, False], D("IG"), ["redo", None], ["undo", None, False], D("EMPTY"), ["redo", None]], "catalogue"),
         (1, [D("EA"), D("EMPTY"), D("IG"), ["undo", None, False], ["undo", None, False]], "catalogue"),
+        (100, [D("EA"), D("MIX"), ["undo", None, False], ["redo", None], D("EA"), ["undo", 1, False]], "catalogue"),
+        (100, [D("NS"), D("EB"), ["undo", 0, False], ["redo", ("mod", 0)]], "catalogue"),
         (2, [D("EA"), D("EB"), D("CF"), D("MD"), ["undo", 0, False], ["redo", None], ["redo", None]], "catalogue"),
         (0, [D("EA"), ["undo", None, False], ["redo", None]], "catalogue"),
         (100, [D("EA"), D("EB"), D("CF"), ["limit", 1], ["undo", None, False], ["redo", None], D("MD"), ["limit", 3],
@@ -86,10 +88,56 @@ def catalogue():
     ]
 
 
+def stop_family():
+    """undo / redo / selective undo of multi-leaf entries under a TaskHandle stopped at EVERY notification index"""
+    D = lambda x: ["do", x]
+    out = []
+    bases = [[D("NS")], [D("RN")], [D("EA"), D("NS")], [D("MD"), D("NS"), D("EB")], [D("RN"), D("MF"), D("NS")],
+             [D("MIX"), D("EA")]]
+    for base in bases:
+        for j in range(0, 12):
+            S = {"stop": j}
+            out.append((100, base + [["undo", None, False, S]], "stop"))
+            out.append((100, base + [["undo", 0, False, S], ["undo", None, False], ["redo", None]], "stop"))
+            out.append((100, base + [["undo", 0, False], ["redo", None, S], ["redo", None]], "stop"))
+            out.append((100, base + [["undo", 0, False], ["redo", 0, S]], "stop"))
+    for j in range(0, 10):
+        out.append((100, [D("EA"), ["do", "NS", {"stop": j}], ["undo", None, False]], "stop"))
+    return out
+
+
+def reload_family(rng):
+    """sessions on a project that saves its history, closed and reopened between operations"""
+    D = lambda x: ["do", x]
+    R = ["reopen"]
+    out = [
+        (100, [D("EA"), D("EB"), R, ["undo", None, False], R, ["redo", None], ["undo", None, False], R, ["undo", None, False]], "reload"),
+        (100, [D("MD"), D("EB"), D("NS"), ["undo", 0, False], R, ["redo", 0], R, ["undo", 1, False]], "reload"),
+        (2, [D("EA"), D("EB"), D("CF"), D("MF"), R, ["undo", None, False], ["undo", None, False], R, ["redo", None]], "reload"),
+        (100, [D("EA"), D("MD"), ["limit", 1], R, ["undo", None, False], R, ["redo", None]], "reload"),
+        (100, [D("RN"), D("EA"), ["undo", 0, False], R, ["redo", None], R, ["undo", ("mod", 1), False]], "reload"),
+    ]
+    letters = list(L.LETTERS)
+    for _ in range(25):
+        script = []
+        for _ in range(rng.choice([6, 10, 14])):
+            r = rng.random()
+            if r < 0.45:
+                script.append(D(rng.choice(letters)))
+            elif r < 0.65:
+                script.append(["undo", None if rng.random() < 0.5 else ("mod", rng.randrange(9)), False])
+            elif r < 0.8:
+                script.append(["redo", None if rng.random() < 0.5 else ("mod", rng.randrange(9))])
+            else:
+                script.append(R)
+        out.append((rng.choice(LIMITS), script, "reload"))
+    return out
+
+
 def random_script(rng, quirks):
     n = rng.choice([6, 10, 15, 20, 30, 40])
-    letters = list(L.LETTERS) + ["CD", "LEAF", "IG", "EMPTY"]
-    weights = [4, 4, 3, 3, 3, 2, 1, 2, 1, 1, 1]
+    letters = list(L.LETTERS) + ["CD", "LEAF", "IG", "EMPTY", "MIX"]
+    weights = [4, 4, 3, 3, 3, 2, 1, 2, 1, 1, 1, 2]
     if quirks:
         letters += ["RMX", "OVW", "ALIAS"]
         weights += [1, 1, 2]
@@ -103,6 +151,8 @@ def random_script(rng, quirks):
         elif r < 0.8:
             sel = ("mod", rng.randrange(50)) if rng.random() < 0.93 else rng.choice([7, 40])
             script.append(["undo", sel, rng.random() < 0.15])
+            if rng.random() < 0.12:
+                script[-1].append({"stop": rng.randrange(8)})
         elif r < 0.86:
             script.append(["redo", None])
         elif r < 0.89:
@@ -131,6 +181,7 @@ def judge(ses, replay_oracle=True):
     snaps = {}                    # id(object) -> (tree before its do, tree after, irreversible?)
     tainted = False
     dropped_paths = []            # paths of the changes forgotten by drop=True while the redo list was non-empty
+    ghosts = []                   # paths changed by performed but unrecorded (ignored-only) changes
     lowered = False               # the limit preference was lowered and no change has been recorded since
     prev_limit = ses.max_undos
 
@@ -142,6 +193,29 @@ def judge(ses, replay_oracle=True):
             continue
         limit_now = st.limit_now
         same_lists = _same_objs(st.pre_undo_objs, st.post_undo_objs) and _same_objs(st.pre_redo_objs, st.post_redo_objs)
+        if st.kind == "reopen":
+            # History.write (trims to the limit, saves both lists) then _load_history: the same lists come back,
+            # as new objects; nothing else changes
+            exp_undo = st.pre_undo[max(0, len(st.pre_undo) - limit_now):]
+            if st.post_undo != exp_undo or st.post_redo != st.pre_redo or st.post_tree != st.pre_tree:
+                bad(idx, "reopen", "after closing and reopening the project the history is not the saved one: undo list "
+                                   "%s, redo list %s, tree %s" % (
+                                       "same" if st.post_undo == exp_undo else "DIFFERS (%d entries, %d expected)" % (
+                                           len(st.post_undo), len(exp_undo)),
+                                       "same" if st.post_redo == st.pre_redo else "DIFFERS (%d entries, %d expected)" % (
+                                           len(st.post_redo), len(st.pre_redo)),
+                                       "same" if st.post_tree == st.pre_tree else "DIFFERS"))
+                tainted = True
+                continue
+            old = st.pre_undo_objs[len(st.pre_undo_objs) - len(st.post_undo_objs):] + list(st.pre_redo_objs)
+            new = list(st.post_undo_objs) + list(st.post_redo_objs)
+            remap = {id(a): b for a, b in zip(old, new)}
+            in_force = [(remap.get(id(o), o), sp) for (o, sp) in in_force]
+            for a, b in zip(old, new):
+                if id(a) in snaps:
+                    snaps[id(b)] = snaps[id(a)]
+            lowered = False
+            continue
         if st.kind == "limit":
             # changing the preference by itself touches nothing (trimming happens at the next do / save)
             if not same_lists or st.post_tree != st.pre_tree:
@@ -178,6 +252,8 @@ def judge(ses, replay_oracle=True):
                 bad(idx, "bookkeeping", "after do the undo list is not old+[change] trimmed to the limit, or the redo "
                                         "list is not empty")
             in_force.append((st.built, st.change))
+            if not interesting:
+                ghosts.extend(L.spec_paths(st.change))      # performed, by design not recorded
             # the exact shape of the overwrite finding: a move leaf whose destination was a file of the tree
             over = [(l[1], l[2]) for l in L10.leaves(st.change) if l[0] == "MV" and l[2] in st.pre_tree and l[1] != l[2]]
             snaps[id(st.built)] = (st.pre_tree, st.post_tree, st.py_irrev or st.unmodelled, over)
@@ -203,6 +279,34 @@ def judge(ses, replay_oracle=True):
         # was forgotten by drop=True while the entry was already in the redo list
         stale = (st.kind == "redo" and any(L.nested_paths(p, q) for j in closure
                                            for p in L.spec_paths(src_specs[j]) for q in dropped_paths))
+        if st.raised and getattr(st, "stop", None) is not None and st.codes == [6]:
+            # interrupted by the task handle: the changes already moved to the other list are undone / redone
+            # completely, the interrupted one not at all - nothing in between
+            dst_pre = st.pre_redo_objs if st.kind == "undo" else st.pre_undo_objs
+            dst_post = st.post_redo_objs if st.kind == "undo" else st.post_undo_objs
+            src_post = st.post_undo_objs if st.kind == "undo" else st.post_redo_objs
+            moved = dst_post[len(dst_pre):]
+            ok = (_same_objs(dst_post[:len(dst_pre)], dst_pre)
+                  and sorted(map(id, list(src_post) + list(moved))) == sorted(map(id, src_objs)))
+            if not ok:
+                bad(idx, "bookkeeping", "interrupted %s: the lists are not a redistribution of the entries" % st.kind)
+                tainted = True
+                continue
+            if st.kind == "undo":
+                ids = set(id(o) for o in moved)
+                in_force = [(o, sp) for (o, sp) in in_force if id(o) not in ids]
+            else:
+                in_force.extend((o, L10.abstract_change(o)) for o in moved)
+            if replay_oracle and not tainted:
+                info["replays"] += 1
+                exp, why = L.replay_tree(ses.tree, [sp for (_, sp) in in_force])
+                if exp is None or exp != st.post_tree:
+                    bad(idx, "interrupted-partial", "%s interrupted by the task handle (stop at notification %s) after %d "
+                                                    "completed entries: the tree is not the one of the entries still in force (%s)"
+                        % (st.kind, st.stop, len(moved), why or "it differs"))
+                    tainted = True
+            info["interrupted"] = info.get("interrupted", 0) + 1
+            continue
         if st.raised:
             cls = None
             if stale:
@@ -218,6 +322,11 @@ def judge(ses, replay_oracle=True):
             tainted = True
             info["tainted_at"] = info["tainted_at"] if info["tainted_at"] is not None else idx
             continue
+        if any(L.nested_paths(p, q) for j in closure for p in L.spec_paths(src_specs[j]) for q in ghosts):
+            # an unrecorded change to an ignored resource meets the undo / redo of a recorded one that touches the
+            # same resource: the history cannot know about it (by design); outside the property
+            tainted = True
+            info["ghost_overlap"] = info.get("ghost_overlap", 0) + 1
         info["sel_steps"] += 1
         deps = list(st.deps or [])
         R = list(st.returned_objs or [])
@@ -437,7 +546,7 @@ def run(ctx):
                 "from the middle of the list) or takes several changes; distinct by (tree, limit, concrete script)."
                 % ctx.scale(4, 5))
     depth = ctx.scale(4, 5)
-    plans = catalogue() + exhaustive_scripts(depth)
+    plans = catalogue() + stop_family() + reload_family(ctx.rng) + exhaustive_scripts(depth)
     n_rand = ctx.scale(120, 1500)
     for k in range(n_rand):
         quirks = (k % 3 == 2)
